@@ -107,7 +107,7 @@ func c01solveHashed(rv, sv, d *big.Int) (k, e *big.Int, ok bool) {
 }
 
 func TestVX_C01(t *testing.T) {
-	r := vx.Begin("C01", "sign-verify", "signatures with chosen shapes are *solved for*: for wanted (r,s) resp. (r,t) resp. (s,t) with z in Z leading zero bytes each (Z = {0,1,2,3,4,8,16,24,30,31} quick, 0..31 thorough) x fills {minimal, maximal, seeded} and key d from {seeded 32-byte, 1-byte 1/2/255, 31-byte, n-2}: k=s(1+d)+rd, e=r-x([k]G); SignHashed must then produce them and VerifyHashed must accept. SignZa/VerifyZa: e=SM3(za||M) fixed, k chosen, d solved for every z_t and z_s, z_r reached by stepping k. Sign/Verify: d fixed, k stepped until z_r,z_s,z_t in {1 (quick), 2 (thorough)} occurred. Oracle: verify==(true,nil), no panic, 32-byte r,s. Shape=(entry, z_r, z_s, z_t, key length)")
+	r := vx.Begin("C01", "sign-verify", "signatures with chosen shapes are *solved for*: for wanted (r,s) resp. (r,t) resp. (s,t) with z in Z leading zero bytes each (Z = {0,1,2,3,4,8,16,24,30,31} quick, 0..31 thorough) x fills {minimal, maximal, seeded} and key d from {seeded 32-byte, 1-byte 1/2/255, 31-byte, n-2}: k=s(1+d)+rd, e=r-x([k]G); SignHashed must then produce them and VerifyHashed must accept. SignZa/VerifyZa: e=SM3(za||M) fixed, k chosen, d solved for every z_t and z_s, z_r reached by stepping k. Sign/Verify: d fixed, k stepped until z_r,z_s,z_t in {1 (quick), 2 (thorough)} occurred. Rejected first candidates (k=0, k>=n, r=0, r+k=n), also followed by a candidate whose r has a leading zero byte. Oracle: verify==(true,nil), no panic, 32-byte r,s. Shape=(entry, z_r, z_s, z_t, key length)")
 	defer r.End()
 	selfCheck()
 	if raw, ok := vx.Replay("sign-verify"); ok {
@@ -227,8 +227,37 @@ func TestVX_C01(t *testing.T) {
 			first *big.Int
 			e     *big.Int
 		}
-		for _, rc := range []rej{{"K0", big.NewInt(0), eFree}, {"Kn", bigN, eFree}, {"Kmax", new(big.Int).Sub(new(big.Int).Lsh(bigOne, 256), bigOne), eFree},
-			{"R0", k1, eR0}, {"RK", k1, eRK}} {
+		// the same rejections followed by a candidate whose r has a leading zero byte (k2 searched where e is already
+		// taken by the rejection; e solved otherwise): nothing of the rejected candidate may survive into the output
+		shortK := func(e *big.Int) *big.Int {
+			lim := new(big.Int).Lsh(bigOne, 248)
+			for t := int64(3); t < 6000; t++ {
+				k := big.NewInt(t)
+				rr := modN(new(big.Int).Add(e, sm2ref.BaseMul(k).X))
+				if rr.Sign() != 0 && rr.Cmp(lim) < 0 && new(big.Int).Add(rr, k).Cmp(bigN) != 0 {
+					return k
+				}
+			}
+			panic("harness: no candidate with a short r found")
+		}
+		eShort := modN(new(big.Int).Sub(bi(append([]byte{0, 0x91}, vx.Fill("c01zr2", 30)...)), sm2ref.BaseMul(k2).X))
+		rejs := []rej{{"K0", big.NewInt(0), eFree}, {"Kn", bigN, eFree}, {"Kmax", new(big.Int).Sub(new(big.Int).Lsh(bigOne, 256), bigOne), eFree},
+			{"R0", k1, eR0}, {"RK", k1, eRK}}
+		seconds := map[string]*big.Int{}
+		for _, rc := range []rej{{"K0+short-r", big.NewInt(0), eShort}, {"Kmax+short-r", new(big.Int).Sub(new(big.Int).Lsh(bigOne, 256), bigOne), eShort},
+			{"R0+short-r", k1, eR0}, {"RK+short-r", k1, eRK}} {
+			rejs = append(rejs, rc)
+			if rc.e == eShort {
+				seconds[rc.name] = k2
+			} else {
+				seconds[rc.name] = shortK(rc.e)
+			}
+		}
+		for _, rc := range rejs {
+			k2 := k2
+			if s2, ok := seconds[rc.name]; ok {
+				k2 = s2
+			}
 			n++
 			if !vx.MineIdx(n) {
 				continue
